@@ -727,7 +727,7 @@ func judgePreflight(cfg *corsCfg, allowedMethods []string, acrm, acrh string, ou
 // c09: preflight answered by the filter alone; grants only what is allowed.
 func c09(ctx *core.Ctx) {
 	quietLogs()
-	ctx.Rule("generated CORS configurations x route tables (C17's fragment), both routers. Preflights: requested method from {GET,POST,PUT,DELETE,PATCH,HEAD, lower-case, unknown}, requested header lists (0-4 entries, any case, SP around commas, one foreign header at any position). Oracle: no later filter/handler event; grant => method within allowed methods (configured, or probed on a filter-less twin when unconfigured) and every header allowed; listed method + allowed headers => grant; refusal => zero Access-Control-* headers. A HandleWithFilter handler registered before the first filter: its preflight is answered by the filter alone, its actual request gets the grant once. Actual requests from allowed origins: chain continues like the twin and Allow-Origin/Credentials/Expose-Headers/Max-Age appear exactly once when configured. History: 30 preflights alternating over URLs with different method sets on ONE filter value, sequentially and from 8 goroutines (race detector on). Non-trivial = a judged preflight or actual request; distinct by (grant/refusal reason, configured vs computed methods, header list shape, history mode).")
+	ctx.Rule("generated CORS configurations x route tables (C17's fragment), both routers. Origins: an allowed front end, in two of seven configurations one on the request's own Host under the other scheme. Preflights: requested method from {GET,POST,PUT,DELETE,PATCH,HEAD, lower-case, unknown}, requested header lists (0-4 entries, any case, SP around commas, one foreign header at any position). Oracle: no later filter/handler event; grant => method within allowed methods (configured, or probed on a filter-less twin when unconfigured) and every header allowed; listed method + allowed headers => grant; refusal => zero Access-Control-* headers. A HandleWithFilter handler registered before the first filter: its preflight is answered by the filter alone, its actual request gets the grant once. Actual requests from allowed origins: chain continues like the twin and Allow-Origin/Credentials/Expose-Headers/Max-Age appear exactly once when configured. History: 30 preflights alternating over URLs with different method sets on ONE filter value, sequentially and from 8 goroutines (race detector on). Non-trivial = a judged preflight or actual request; distinct by (grant/refusal reason, configured vs computed methods, header list shape, history mode).")
 	configs := ctx.N(300, 30000)
 	reqHeaders := []string{"Content-Type", "content-type", "ACCEPT", "X-Custom", "Authorization", "X-Evil", "x-custom", "Accept", "Language", "Content", "x-authorization-hint", "Hint", "accept-language"}
 	for ci := 0; ci < configs; ci++ {
@@ -740,6 +740,10 @@ func c09(ctx *core.Ctx) {
 		p := buildCorsPair(r, router)
 		// every preflight needs an allowed origin
 		origin := "http://example.com"
+		if ci%7 == 3 || ci%7 == 6 {
+			// the front end lives on the API's own host name under the other scheme: a cross-origin caller like any other
+			origin = "https://verif.test"
+		}
 		if p.cfg.policy(origin) != originAllowed {
 			p.cfg.Domains = append(p.cfg.Domains, origin)
 			p = rebuildCorsPair(p, router)
